@@ -4,7 +4,7 @@ name="$1"; id="$2"; shift 2
 WT="/tmp/ws-$name-$$"
 git -C /repo worktree add -q --detach "$WT" HEAD || exit 2
 trap 'git -C /repo worktree remove --force "$WT" >/dev/null 2>&1; rm -rf "$WT" "/verif/build/$id-ws$name" "/tmp/ws-ev-$name-$$"' EXIT
-git -C "$WT" apply "/verif/seeded/$name/patch.diff" || { echo "patch does not apply"; exit 2; }
+git -C "$WT" apply "/verif/seeded/$name/patch.diff" 2>/dev/null || git -C "$WT" apply --3way "/verif/seeded/$name/patch.diff" || { echo "patch does not apply"; exit 2; }
 export VERIF_REPO="$WT" VERIF_BUILD_TAG="ws$name" VERIF_EVIDENCE_DIR="/tmp/ws-ev-$name-$$" VERIF_REPLAY_DIR="/tmp/ws-ev-$name-$$/replays"
 /verif/check "$id" --tier "${TIER:-quick}" "$@"
 echo "rc=$?"
